@@ -870,6 +870,41 @@ func extractMisc() {
 		emit("/-- internal/core pipeIDAllocator.Get: the scan loop -/\n")
 		emit("def allocShape : List String := %s\n", leanStrList(shape))
 	}
+	// dialer back-off: jitter factors, growth and cap conditions, what the timers are armed with
+	{
+		p := loadPkg("internal/core")
+		facts := []string{}
+		for _, fn := range []string{"dial", "pipeClosed", "pipeConnected", "Close", "Dial"} {
+			fd := p.fn("dialer", fn)
+			if fd == nil {
+				unrec("internal/core:dialer."+fn, "function not found")
+				continue
+			}
+			ast.Inspect(fd, func(x ast.Node) bool {
+				switch s := x.(type) {
+				case *ast.AssignStmt:
+					if len(s.Lhs) == 1 {
+						l := exprString(s.Lhs[0])
+						if l == "minfact" || l == "maxfact" || l == "actfact" || l == "rtime" || strings.HasPrefix(l, "d.reconnTime") || l == "d.redialer" || l == "d.active" || l == "d.closed" {
+							facts = append(facts, fn+": "+l+s.Tok.String()+exprString(s.Rhs[0]))
+						}
+					}
+				case *ast.IfStmt:
+					c := exprString(s.Cond)
+					if strings.Contains(c, "reconn") || strings.Contains(c, "d.active") || strings.Contains(c, "d.closed") || strings.Contains(c, "redial") {
+						facts = append(facts, fn+": if "+c)
+					}
+				case *ast.ExprStmt:
+					if c, ok := s.X.(*ast.CallExpr); ok && (exprString(c.Fun) == "time.AfterFunc" || strings.HasSuffix(exprString(c.Fun), ".Stop")) {
+						facts = append(facts, fn+": "+exprString(c))
+					}
+				}
+				return true
+			})
+		}
+		emit("/-- internal/core dialer: redial and back-off facts -/\n")
+		emit("def dialerFacts : List String := %s\n", leanStrList(facts))
+	}
 	emit("/-- byte comparisons in protocol/sub: matching is HasPrefix(body, subscription); (un)subscribe compare with Equal -/\n")
 	emit("def subMatches : List String := %s\n", leanStrList(bytesCalls("protocol/sub", "context", "matches")))
 	emit("def subSubscribe : List String := %s\n", leanStrList(bytesCalls("protocol/sub", "context", "subscribe")))
